@@ -123,7 +123,8 @@ class C18(Scenario):
     level = "exploration"
     design_ref = "DESIGN.md 3.5, 4/C18"
     rule = ("three workloads by run index: EventDebouncer (event source with gaps around the debounce interval, start and stop racing it), AutoRestartTrick (events, child behaviours: runs for ever / "
-            "exits by itself at t / ignores the stop signal until SIGKILL / dies some ticks after the signal; kill_after, debounce interval and restart_on_command_exit seeded; stop() racing), "
+            "exits by itself at t / ignores the stop signal until SIGKILL / dies some ticks after the signal; kill_after, debounce interval and restart_on_command_exit seeded; stop() racing; "
+            "Popen.poll() taking 0..300 ticks in 40% of the runs; an event delivered by a dispatcher thread around start() in 15%; a concurrent stop() from a second thread in 15%), "
             "ShellCommandTrick (wait_for_process / drop_during_process); distinct = distinct (workload+program digest, interleaving digest); non-trivial = a pre-emption was taken or a child "
             "exited by itself / ignored the signal")
     level_text = ("Seeded search over event/exit/stop sequences x interleavings on a virtual clock against a simulated process table; oracle: debouncer - every handled event in exactly one batch, "
